@@ -20,6 +20,15 @@ CLAIMED = {
         note="log/exp uninterpreted with the axiom instances listed in the evidence; reductions via linearity/congruence of "
              "finite sums; normalisation of the named densities (integrate to one) is a textbook fact, assumed; floats as reals",
         ref="3/C05"),
+    "C13": dict(
+        text="Proof: for every sample length, column count and fraction, the interval returned by the real sample_hdi code has "
+             "two sorted sample values L=floor(f*n) positions apart as end points (so it holds L+1 > f*n points), no window of "
+             "L+1 sorted points is shorter, every column of a 2-D input satisfies the same contract on its own sorted values, "
+             "lists are treated like arrays and the caller's array is not written. Bounded layer: element-wise run-time "
+             "evaluation incl. column-vs-1-D agreement.",
+        note="assumed contracts of ndarray.sort (non-decreasing permutation) and argmin (first minimiser); permutation "
+             "invariance / affine covariance follow from the contract depending on the sorted values only (meta step, bounded check only)",
+        ref="3/C13"),
 }
 
 PENDING_REASON = "contracts for this property are not built yet in this revision (see DESIGN.md section 7); not claimed"
